@@ -18,7 +18,7 @@ RULE = (
     "random dependency-closed subset of the declarations moves into a module imported where the "
     "first moved declaration stood; recursively to depth 3; module paths are plain or dotted "
     "(sub-directories, resolved relative to the importing file; several modules may share a file name "
-    "in different directories; some files are saved with CRLF line endings; for every sixth schema the single file and every file of the split are saved with a UTF-8 byte order mark (both must get the same verdict and tree); a quarter of the schemas declares "
+    "in different directories; some files are saved with CRLF line endings; every tenth case also splits 9-16 declarations into one module file each; for every sixth schema the single file and every file of the split are saved with a UTF-8 byte order mark (both must get the same verdict and tree); a quarter of the schemas declares "
     "some name twice, which the parser accepts).  Oracle: get_fcp(root).to_dict() has "
     "the same structs, enums, bindings (incl. default ones), services and devices as the single-file "
     "text (compared per kind as multisets; ordered equality with the inlined order is recorded).  "
@@ -125,6 +125,30 @@ def build_tree(r, decls, relpath, depth, counter, same_names=False):
         if i not in idx:
             t.items.append(d)
     return t
+
+
+def wide_tree(r, i):
+    """(decls, tree): 9..16 self-contained declarations, EACH in a module file of its own (flat, or nested
+    two per directory level), all imported by the root, which keeps the bindings."""
+    n = r.randint(9, 16)
+    decls = []
+    root = Tree("main.fcp")
+    for k in range(n):
+        nm = "W%d_%d" % (i, k)
+        if k % 4 == 3:
+            d = {"kind": "enum", "name": nm, "values": [("A" + nm, 0), ("B" + nm, r.randint(1, 40))]}
+        else:
+            d = {"kind": "struct", "name": nm, "fields": [{"name": "a%d" % k, "id": 0, "type": ("u", r.randint(1, 32))}, {"name": "b%d" % k, "id": 1, "type": r.choice([("f32",), ("str",), ("i", 9)])}]}
+        decls.append(d)
+        segs = ["w%d" % k] if k % 3 else ["dir%d" % (k // 3), "w%d" % k]
+        child = Tree(os.path.join(*segs[:-1], segs[-1] + ".fcp") if len(segs) > 1 else segs[-1] + ".fcp")
+        child.items = [d]
+        root.items.append(("mod", segs, child))
+    for k in range(0, n, 4):
+        b = {"kind": "impl", "protocol": "can", "type": "W%d_%d" % (i, k), "name": None, "items": [("field", "id", k + 1)]}
+        decls.append(b)
+        root.items.append(b)
+    return decls, root
 
 
 def write_tree(root, tree, style_of=None, crlf=None):
@@ -349,6 +373,12 @@ def run(run):
                 os.makedirs(root)
                 compare_bom(run, i, decls, tree, root)
                 shutil.rmtree(root)
+            if i % 10 == 7:
+                wdecls, wtree = wide_tree(run.rng("wide", i), i)
+                os.makedirs(root)
+                compare_split(run, i, wdecls, wtree, root)
+                shutil.rmtree(root)
+                run.count("wide_splits_of_9_to_16_modules")
             for fault in FAULTS:
                 if (i + FAULTS.index(fault)) % 3:
                     continue
@@ -362,7 +392,7 @@ def run(run):
 
 
 def conclude(run):
-    run.require("bom_pairs", "splits_parsed", "splits_equal", "faults_injected", "faults_reported_well", "splits_with_crlf_files", "schemas_with_duplicate_declarations",
+    run.require("wide_splits_of_9_to_16_modules", "bom_pairs", "splits_parsed", "splits_equal", "faults_injected", "faults_reported_well", "splits_with_crlf_files", "schemas_with_duplicate_declarations",
                 "moved/struct", "moved/enum", "moved/impl", "moved/service", "moved/device")
 
 
